@@ -67,20 +67,20 @@ type orphan struct {
 }
 
 type scenarioB struct {
-	Active   bool
-	Equip    bool
-	T6, T7   time.Duration
-	Backoff  time.Duration
-	WriteTO  time.Duration
-	Plans    []genPlan
-	Senders  int
-	CloseAt  time.Duration // first application Close
-	CloseOnConnect int     // if > 0: the first Close is called while the k-th TCP connection attempt completes
+	Active         bool
+	Equip          bool
+	T6, T7         time.Duration
+	Backoff        time.Duration
+	WriteTO        time.Duration
+	Plans          []genPlan
+	Senders        int
+	CloseAt        time.Duration // first application Close
+	CloseOnConnect int           // if > 0: the first Close is called while the k-th TCP connection attempt completes
 	CloseOnOff     time.Duration
-	Reopen   bool
-	ReopenIn time.Duration
-	Close2In time.Duration
-	DialLat  []int // per dial attempt: latency in ms, or -1 refused
+	Reopen         bool
+	ReopenIn       time.Duration
+	Close2In       time.Duration
+	DialLat        []int // per dial attempt: latency in ms, or -1 refused
 	// NotifyDelay: how long the application's state-change handler takes (0 = returns at once); with a
 	// slow handler the close timeout is short, so Close can return (reporting the timeout) while
 	// notifications are still queued — they must still all arrive
@@ -89,24 +89,24 @@ type scenarioB struct {
 }
 
 type gen struct {
-	c         *refhsms.Conn
-	idx       int
-	plan      genPlan
-	estFrames int // select-establishing frames sent by the peer
-	desFrames int // Deselect.req sent by the peer
-	nsToS     int
-	sToNS     int
-	ncToNS    int
-	peerEnded bool
-	separate  bool
-	refused   bool
-	selReqAt  time.Duration // when the library's Select.req was seen (active)
+	c           *refhsms.Conn
+	idx         int
+	plan        genPlan
+	estFrames   int // select-establishing frames sent by the peer
+	desFrames   int // Deselect.req sent by the peer
+	nsToS       int
+	sToNS       int
+	ncToNS      int
+	peerEnded   bool
+	separate    bool
+	refused     bool
+	selReqAt    time.Duration // when the library's Select.req was seen (active)
 	selAnswered bool
-	model     hsms.ConnState // the peer-side model of the session on this connection
-	scripted  bool
-	settled   bool
-	openedAt  time.Duration
-	wedgedAt  time.Duration
+	model       hsms.ConnState // the peer-side model of the session on this connection
+	scripted    bool
+	settled     bool
+	openedAt    time.Duration
+	wedgedAt    time.Duration
 }
 
 type note struct {
@@ -131,20 +131,20 @@ type harnessB struct {
 	changes  int
 	coalesce int
 
-	closeCalled  bool
-	closeStarted bool
+	closeCalled   bool
+	closeStarted  bool
 	closeTimedOut bool // Close reported the close timeout: the handlers had not drained when it returned
-	inHandler    int
-	peerDials    int
-	closeCallAt  time.Duration
-	closeRet     bool
-	closeRetTick int
-	reopenCalled bool
-	openCycle    int
-	finished     bool
-	sendersDone  int
-	stop         bool
-	stallPending time.Duration
+	inHandler     int
+	peerDials     int
+	closeCallAt   time.Duration
+	closeRet      bool
+	closeRetTick  int
+	reopenCalled  bool
+	openCycle     int
+	finished      bool
+	sendersDone   int
+	stop          bool
+	stallPending  time.Duration
 }
 
 type whenB struct {
